@@ -7,6 +7,7 @@ import (
 	"encoding/binary"
 	"errors"
 	"fmt"
+	"os"
 	"strings"
 	"sync"
 	"testing"
@@ -476,7 +477,33 @@ func fullQueueCase() harness.Case {
 	}}
 }
 
+// burstCase: one goroutine sends more numbered messages back to back than the destination queue
+// holds (the peer is healthy): all of them arrive, exactly once, in sending order.
+func burstCase(n int) harness.Case {
+	return harness.Case{ID: fmt.Sprintf("burst/%d", n), Run: func(c *harness.C) {
+		c.Exec(fmt.Sprintf("[burst] %d messages", n))
+		bubble(c, func() {
+			w := newNet(2, false)
+			var want []sent
+			for i := 0; i < n; i++ {
+				s := sent{2, topic32("burst"), []byte(fmt.Sprintf("m%05d", i))}
+				want = append(want, s)
+				w.nodes[1].send.Send(s.typ, s.topic, s.data, 2)
+			}
+			settle(20 * time.Second)
+			compare(c, fmt.Sprintf("burst of %d messages: traffic 1->2", n), w.nodes[2].col.Snapshot(), 1, want, map[string]interface{}{"burst": n})
+			w.close()
+		})
+		c.Add("executions", 1)
+		c.Add("evaluations", 1)
+		c.Outcome(fmt.Sprintf("burst|%d", n))
+	}}
+}
+
 func gen(c *harness.C) []harness.Case {
+	if os.Getenv("VERIF_FAMILY") == "threads" {
+		return threadCases(c)
+	}
 	c.Note("rule", "real net package (ServiceConnections, NewSocketRemoteParty, Send, sendMessages, readMsg) over in-memory TLS 1.3 in a bubble; payload lengths {0,1,2,31,32,33,255,256,65535,65536,1MiB,limit-1,limit} x legal type/topic combinations; frames announcing more than the limit; every interleaving of the Send calls of 2-3 goroutines x 2-3 messages to two destinations; each fault of the third peer (never accepts, never reads with back-pressure, closes after k bytes for k over the first two frames, garbles back, queue full) while traffic to the healthy peer continues for a virtual minute; distinct_nontrivial = distinct cells")
 	if !dialSeam {
 		c.Note("c17-dial-seam", "tls.Dial could not be redirected on this tree: sender-side cases skipped")
@@ -514,6 +541,9 @@ func gen(c *harness.C) []harness.Case {
 		cases = append(cases, failingCase("starts-late", k, "default"))
 	}
 	cases = append(cases, fullQueueCase())
+	for _, n := range []int{999, 1000, 1001, 1500, 3000} {
+		cases = append(cases, burstCase(n))
+	}
 	return cases
 }
 
